@@ -26,8 +26,6 @@ CONSTANTS Log,            \* set of offsets present in the partition
           SyncProc,       \* TRUE: the processor returns synchronously (successfully)
           Delays,         \* <<d1, d2, ...>> retry delay table (microseconds): init*f^(k-1) capped
           MaxBuf,         \* number of buffer growth steps available (0: the initial size is the maximum)
-          KF_ContinueAfterFailure,   \* known finding F7 (see known_findings.json): TRUE = what afkak does today: after a
-                                     \* processor failure the following blocks are still delivered and may be committed
           MaxDepth
 
 EARLIEST == -2
@@ -43,7 +41,8 @@ LogEnd == IF Log = {} THEN 0 ELSE LogSeq[Len(LogSeq)] + 1
 Delay(k) == Delays[IF k <= Len(Delays) THEN k ELSE Len(Delays)]
 
 InitState ==
-    [ startD |-> "none",       \* none | pending | fired   (the Deferred returned by start; none: not running)
+    [ startD |-> "none",       \* none | pending | fired   (the Deferred returned by start; none: not running;
+                               \* fired: an unrecoverable error was reported -- nothing more is fetched or delivered)
       fo |-> 0,                \* _fetch_offset
       req |-> "none",          \* none | offsets | ofetch | fetch    (_request_d)
       parked |-> <<>>,         \* a fetch reply held back behind the block being processed: <<window>>
@@ -72,14 +71,15 @@ DoFetch(st) ==
     LET s == st.s IN
     IF s.req # "none" THEN st
     ELSE LET s1 == [s EXCEPT !.retry = FALSE] IN
-         IF s.fo \in {EARLIEST, LATEST} THEN Act(St([s1 EXCEPT !.req = "offsets"], st.out), <<"offsets", s.fo>>)
+         IF s.startD = "fired" THEN St(s1, st.out)
+         ELSE IF s.fo \in {EARLIEST, LATEST} THEN Act(St([s1 EXCEPT !.req = "offsets"], st.out), <<"offsets", s.fo>>)
          ELSE IF s.fo = COMMITTED THEN Act(St([s1 EXCEPT !.req = "ofetch"], st.out), <<"ofetch">>)
          ELSE Act(St([s1 EXCEPT !.req = "fetch"], st.out), <<"fetch", s.fo, s.buf>>)
 
 \* _retry_fetch(after): zero = TRUE for the immediate re-fetch after a reply
 RetryFetch(st, zero) ==
     LET s == st.s IN
-    IF s.shutting \/ s.startD = "none" THEN st
+    IF s.shutting \/ s.startD \in {"none", "fired"} THEN st
     ELSE IF s.retry THEN st
     ELSE IF zero THEN Act(St([s EXCEPT !.retry = TRUE, !.acount = @ + 1], st.out), <<"timer", 0>>)
     ELSE Act(St([s EXCEPT !.retry = TRUE, !.acount = @ + 1, !.ridx = @ + 1], st.out), <<"timer", Delay(s.ridx)>>)
@@ -113,7 +113,7 @@ StopNow(s0) ==
     LET s == s0.s
         \* Cancelling the pending processor call lets the block loop take one more turn: the next block is handed to
         \* the processor and cancelled at once.  This happens inside stop(), not after it has returned.
-        st == IF s0.s.procPending /\ s0.s.todo # <<>> /\ ~s0.s.shutting
+        st == IF s0.s.procPending /\ s0.s.todo # <<>> /\ ~s0.s.shutting /\ s0.s.startD # "fired"
               THEN Act(s0, <<"proc", SubSeq(s0.s.todo, 1, IF BlockN = 0 \/ BlockN > Len(s0.s.todo) THEN Len(s0.s.todo) ELSE BlockN)>>)
               ELSE s0
         s1 == [s EXCEPT !.req = "none", !.parked = <<>>, !.retry = FALSE, !.block = FALSE, !.todo = <<>>, !.cur = <<>>,
@@ -157,7 +157,7 @@ Deliver(st, ok, val) ==
 Process(st) ==
     \* hand the next block to the processor, or finish the reply
     LET s == st.s IN
-    IF s.todo # <<>> /\ ~s.shutting
+    IF s.todo # <<>> /\ ~s.shutting /\ s.startD # "fired"
     THEN LET n == IF BlockN = 0 THEN Len(s.todo) ELSE (IF BlockN < Len(s.todo) THEN BlockN ELSE Len(s.todo))
              blk == SubSeq(s.todo, 1, n)
              x1 == Act(St([s EXCEPT !.cur = blk, !.todo = SubSeq(@, n + 1, Len(@)), !.procPending = TRUE], st.out), <<"proc", blk>>)
@@ -172,10 +172,7 @@ ProcDone(st, ok) ==
         x0 == St([s EXCEPT !.procPending = FALSE, !.cur = <<>>], st.out)
         \* success records the offset and may auto-commit; failure is reported on the start Deferred
         x1 == IF ok THEN AutoCommit(St([x0.s EXCEPT !.lp = last], x0.out), TRUE)
-              ELSE IF KF_ContinueAfterFailure THEN FailStart(x0)
-              ELSE \* the consumer cannot recover: it reports the failure and ceases (nothing further is delivered or committed)
-                   LET y == StopNow(St([x0.s EXCEPT !.startD = IF @ = "pending" THEN "failing" ELSE @], x0.out))
-                   IN IF x0.s.startD = "pending" THEN Act(y, <<"fire", "start", "fail", 0>>) ELSE y
+              ELSE FailStart(x0)      \* (the rest of the reply is dropped by Process: the consumer has failed)
         \* the block loop resumes first (it ends at once when shutting down; a parked reply is then looked at) ...
         x2 == IF x1.s.startD = "none" THEN x1 ELSE Process(x1)
     IN \* ... and a shutdown that was waiting for the processor continues now
@@ -185,6 +182,7 @@ FetchReply(st, w) ==
     \* w: the offsets of the messages in the reply (the consumer skips those below its fetch offset)
     LET s == st.s IN
     IF s.block THEN St([s EXCEPT !.parked = <<w>>, !.ridx = 1, !.acount = 1], st.out)
+    ELSE IF s.startD = "fired" THEN St([s EXCEPT !.req = "none", !.ridx = 1, !.acount = 1], st.out)
     ELSE IF w = <<-1>>
     THEN \* not even one complete message fits the buffer: grow it, or give up at the maximum; never skip
          IF s.buf < MaxBuf THEN RetryFetch(St([s EXCEPT !.req = "none", !.ridx = 1, !.acount = 1, !.buf = @ + 1], st.out), TRUE)
@@ -234,12 +232,14 @@ Step(s, e) ==
            ELSE DoFetch(St([s EXCEPT !.req = "none", !.ridx = 1, !.acount = 1, !.fo = e.x + 1, !.lc = e.x], <<>>))
       [] e.a \in {"OffsetsErr", "OFetchErr"} ->
            LET s1 == [s EXCEPT !.req = "none"] IN
-           IF Exhausted(s1) THEN FailStart(St(s1, <<>>)) ELSE RetryFetch(St(s1, <<>>), FALSE)
+           IF s.startD = "fired" THEN St(s1, <<>>)
+           ELSE IF Exhausted(s1) THEN FailStart(St(s1, <<>>)) ELSE RetryFetch(St(s1, <<>>), FALSE)
       [] e.a = "FetchDone" -> FetchReply(st0, e.w)
       [] e.a = "FetchErr" ->
            \* e.k: "range" (offset out of range) or any other failure
            LET s1 == [s EXCEPT !.req = "none"] IN
-           IF e.k = "range" /\ Reset = "none" THEN FailStart(St(s1, <<>>))
+           IF s.startD = "fired" THEN St(s1, <<>>)
+           ELSE IF e.k = "range" /\ Reset = "none" THEN FailStart(St(s1, <<>>))
            ELSE LET s2 == IF e.k = "range" THEN [s1 EXCEPT !.fo = IF Reset = "latest" THEN LATEST ELSE EARLIEST] ELSE s1 IN
                 IF Exhausted(s2) THEN FailStart(St(s2, <<>>)) ELSE RetryFetch(St(s2, <<>>), FALSE)
       [] e.a = "ProcDone" -> ProcDone(st0, e.x = 1)
